@@ -88,7 +88,11 @@ def map_viewbox_to_otsvg_space(
             scale_viewbox_to_font_metrics(view_box, ascender, descender, width),
             # shift things in the [+x,-y] quadrant where OT-SVG expects them
             Affine2D(1, 0, 0, 1, 0, -ascender),
-            user_transform,
+            # user_transform is in font coordinates (+y up) but OT-SVG has +y going
+            # down; conjugate by a y-flip so OT-SVG matches the other color formats
+            Affine2D.compose_ltr(
+                (Affine2D.flip_y(), user_transform, Affine2D.flip_y())
+            ),
         ]
     )
 
